@@ -1,4 +1,5 @@
 import Cutadapt.Properties.C07
+import Cutadapt.Proofs.KmerCompose
 #print axioms Cutadapt.C07.shift_and_correct
 #print axioms Cutadapt.C07.shift_and_correct_entry
 #print axioms Cutadapt.C07.kmers_present_spec
@@ -15,3 +16,5 @@ import Cutadapt.Properties.C07
 #print axioms Cutadapt.C07.prefilter_not_safe
 #print axioms Cutadapt.C07.prefilter_only_removes
 #print axioms Cutadapt.C07.prefilter_safe_partial
+#print axioms Cutadapt.C07.locateSound_of_ok
+#print axioms Cutadapt.C07.prefilter_safe_partial_unconditional
